@@ -23,13 +23,22 @@ ASSUMPTIONS = ["reference interpreter", "measurement values are generic reals aw
 BUDGET = {"quick": (1600, 4), "thorough": (32000, 16)}
 
 
-def _cfg(tier):
-    return S.Cfg(max_items=10 if tier != "quick" else 6, depth=2, regs=True, options=False, ascii_only=False)
+def _cfg(tier, params=False):
+    return S.Cfg(max_items=10 if tier != "quick" else 6, depth=2, regs=True, params=params, options=False, ascii_only=False)
 
 
 @st.composite
 def case(draw, tier):
-    sc = draw(S.script(_cfg(tier)))
+    with_params = draw(st.integers(0, 3)) == 0
+    sc = draw(S.script(_cfg(tier, with_params)))
+    if with_params:
+        # a register argument next to a template-parameter argument, in both orders and as keyword ("arguments without
+        # registers stay plain values" -- a parameter is not a measured register)
+        reg = A.Flat([A.Operand("", A.Num("float", "0.5")), A.Operand("", A.Reg("q%d" % draw(st.integers(0, 12))))], ["*"])
+        par = draw(st.sampled_from([S.F1(A.Param("r1")), A.Flat([A.Operand("", A.Param("phi")), A.Operand("", A.Num("int", "2"))], ["*"])]))
+        order = draw(st.integers(0, 2))
+        args = A.Args([reg, par], [], False) if order == 0 else A.Args([par, reg], [], False) if order == 1 else A.Args([reg], [["k", par]], False)
+        sc.items.append(A.Stmt("Mixed", args, [S.F1(A.Num("int", "0"))], "", ""))
     if draw(st.integers(0, 2)) == 0:
         # three or four distinct registers in one nested argument (positional and keyword)
         nums = draw(st.lists(st.one_of(st.integers(0, 12), st.integers(0, 300)), min_size=3, max_size=4, unique=True))
